@@ -129,7 +129,11 @@ def run(
                 map(lambda f: ["--config", str(f)], yaml_files)
             )
         )
-        command.extend(map(str, files_to_analyze or [execution_context.directory]))
+        targets: list = list(files_to_analyze or [execution_context.directory])
+        # A file may have been removed since it was selected: semgrep fails on a missing target
+        if not (targets := [target for target in targets if Path(target).exists()]):
+            return InternalSemgrepResultSet()
+        command.extend(map(str, targets))
         logger.debug("semgrep command: `%s`", " ".join(command))
         call = subprocess.run(
             command,
